@@ -36,6 +36,16 @@ class NameSpace(Space):
                     for absolute in (False, True):
                         self.items.append((comps, seps, absolute))
 
+        # out of the destination through a sibling that does not exist yet and back in through the destination's own name:
+        # the normalised target is inside, the path as written passes through directories outside
+        for sib in ("ghost", "a", DST + "x"):
+            for tail in (("a",), ("a", "a"), ("a", "")):
+                for pre in ((), ("a", "..")):
+                    comps = pre + ("..", sib, "..", DST) + tail
+                    item = (comps, ("/",) * (len(comps) - 1), False)
+                    if item not in self.items:
+                        self.items.append(item)
+
     def __len__(self):
         return len(self.items)
 
